@@ -354,6 +354,10 @@ def directed_c17(quick, K):
                 [run1(act(1, 1, "rec", 1)), {"n": "env", "e": "PodRunning", "p": 1, "g": 0}, {"n": "env", "e": "PodTerminating", "p": 1, "g": 0},
                  run1(act(1, 3, t)), {"n": "check"}, run1(act(1, 4, "hdl", 1, "PodDeleted")), run1(act(1, 3, "sync")), {"n": "check"}],
                 "rec1,PodRunning(1),PodTerminating(1),%s,PodDeleted(1)" % t)
+        # the bound pod reaches a terminal phase without ever being seen Running (rejected by the kubelet, short pod)
+        add(cfgname, "life-never-running",
+            [run1(act(1, 1, "rec", 1)), run1(act(1, 4, "hdl", 1, "PodCompleted")), {"n": "check"}, run1(act(1, 3, "sync")), {"n": "check"}],
+            "rec1,PodCompleted(1) from Pending")
         add(cfgname, "brdel",
             [run1(act(1, 1, "rec", 1), faults=[{"a": 1, "k": K[cfgname] - 2, "f": "fail"}]), run1(act(1, 4, "hdl", 1, "BRDeleted")),
              run1(act(1, 3, "sync")), {"n": "check"}], "rec1,Fail@create/Binding,BRDeleted(1)")
